@@ -334,7 +334,7 @@ impl Prop for C13 {
     }
     fn cases(&self, tier: Tier) -> u64 {
         match tier {
-            Tier::Quick => 6_000,
+            Tier::Quick => 60_000,
             Tier::Thorough => 250_000,
         }
     }
